@@ -378,7 +378,7 @@ pub fn cold_oracle(_ctx: &RunCtx, spec: &ColdSpec, log: &mut CaseLog) -> Result<
         .arg(serde_json::to_string(spec).unwrap())
         .env("BPCHECK_CHILD", "1")
         .output()
-        .map_err(|e| format!("spawn: {}", e))?;
+        .map_err(|e| format!("{} cannot spawn the cold-start child process: {}", crate::runner::INCONCLUSIVE, e))?;
     if !out.status.success() {
         return Err(format!(
             "cold-start child process failed ({:?}): {}",
